@@ -12,6 +12,10 @@ use common::{Args, Coverage, Ctx, load_replay, machinery_error};
 fn main() {
     let argv: Vec<String> = std::env::args().skip(1).collect();
     let args = Args::parse(&argv);
+    unsafe {
+        let lim = libc::rlimit { rlim_cur: 65536, rlim_max: 65536 };
+        libc::setrlimit(libc::RLIMIT_NOFILE, &lim);
+    }
     common::quiet_panics();
     common::thread_init();
     let ctx = Ctx::new(args.clone());
@@ -29,6 +33,8 @@ fn main() {
         ("C16", Some(r)) => checks::c16::replay(&ctx, &r["case"]),
         ("C11", None) => checks::c11::run(&ctx),
         ("C11", Some(r)) => checks::c11::replay(&ctx, &r["case"]),
+        ("C10", None) => checks::c10::run(&ctx),
+        ("C10", Some(r)) => checks::c10::replay(&ctx, &r["case"]),
         ("C05", None) => checks::cfgstate::run_c05(&ctx),
         ("C06", None) => checks::cfgstate::run_c06(&ctx),
         ("C07", None) => checks::cfgstate::run_c07a(&ctx),
